@@ -64,7 +64,7 @@ let children (ops : (int * cop) list) : (int * int) list =   (* (owner client, c
 let nested_ok (ops : (int * cop) list) : bool =
   let ch = List.map snd (children ops) in
   let named = List.filter_map (fun (_, op) -> match fut_of op with Some f -> Some (f mod nslots) | None -> None) ops in
-  List.for_all (fun g -> g >= 16 && g < nslots && not (List.mem g named)) ch
+  List.for_all (fun g -> g >= 16 && g < 56 && not (List.mem g named)) ch   (* slots 56..63 hold a Future<String> *)
   && List.length (List.sort_uniq compare ch) = List.length ch
 
 (* scripts per client with global op indices; every future gets an implicit final join by its
@@ -100,7 +100,7 @@ let spec_line (o : sobs) : string = match o with
         (match n with Some _ -> "1" | None -> "-") (match v with Some v -> dec_of_z v | None -> "?")
   | SoCheck (c, f, n, st, ab) ->
       Printf.sprintf "check %s %s %s | st %s ab %d" (i_n c) (i_f f) (i_n n)
-        (match st with Some s -> st_char s | None -> "?") (if ab then 1 else 0)
+        (match st with SsIs s -> st_char s | SsDone -> "FA" | SsAny -> "?") (if ab then 1 else 0)
   | SoPause c -> Printf.sprintf "pause %s" (i_n c)
   | SoDestroy (c, f, Some n) -> Printf.sprintf "destroy %s %s %s | after 1" (i_n c) (i_f f) (i_n n)
   | SoDestroy (c, f, None) -> Printf.sprintf "destroy %s %s - | after -" (i_n c) (i_f f)
@@ -175,11 +175,14 @@ let obs_lines (c : case) (trace : event list) : string list =
        | ODestroy (f, None) -> Printf.sprintf "destroy %d %s - | after -" cl (i_f f)))
 
 (* mask the schedule dependent tokens of the model's observations with the spec's wildcards *)
-let mask_with_spec (m : string) (sp : string) : string =
+(* `FA` (finished or aborted, the text does not say which): the model's value is schedule dependent when
+   abort() raced with a function that does not look at it; for a function that polls isAborting() the
+   model says A, a fact of the code that stays in the model's line (correspondence), see [keep] *)
+let mask_with_spec ?(keep = false) (m : string) (sp : string) : string =
   let mt = String.split_on_char ' ' m and st = String.split_on_char ' ' sp in
   if List.length mt <> List.length st then m
   else String.concat " " (List.map2 (fun a b ->
-         if b = "?" then b else a) mt st)
+         if b = "?" then b else if b = "FA" && not keep then "?" else a) mt st)
 
 (* ---------------- replay cases: macro steps ---------------- *)
 let pc_name (p : pc) : string = match p with
@@ -331,7 +334,13 @@ let () =
           | None -> emit "! timeout"
           | Some (sf, tr) ->
               let runs_of g = List.filter_map (fun e -> match e with EvRun (_, f2, n2, a) when int_of_nat f2 = g && int_of_nat n2 = 1 -> Some a | _ -> None) tr in
-              List.iter2 (fun (m, (_, op)) s -> emit (mask_with_spec m s);
+              (* per op: does the latest start of the op's future (before the op) poll isAborting()? *)
+              let w3 = Hashtbl.create 16 in
+              let keeps = List.map (fun (_, op) -> match op with
+                | CStart (f, _, w) -> Hashtbl.replace w3 f (int_of_nat w = 3); false
+                | CCheck f -> (try Hashtbl.find w3 f with Not_found -> false)
+                | _ -> false) ops in
+              List.iter2 (fun ((m, (_, op)), keep) s -> emit (mask_with_spec ~keep m s);
                 match op with
                 | CStart (_, _, w) when int_of_nat w >= 4 ->
                     let g = int_of_nat w - 4 in
@@ -339,7 +348,7 @@ let () =
                     let res = (List.nth sf.st_futs g).f_result in
                     (match nested_line op m (List.length rs) (match rs with a :: _ -> dec_of_z a | [] -> "-")
                              (match res with Some v -> dec_of_z v | None -> "?") with Some x -> emit x | None -> ())
-                | _ -> ()) (List.combine (obs_lines c tr) ops) sp;
+                | _ -> ()) (List.combine (List.combine (obs_lines c tr) ops) keeps) sp;
               emit (Printf.sprintf "pool pushed %s tc_ok %d" (dec_of_z sf.st_pushed)
                       (if Z.leb sf.st_tcount cfg.c_max && Z.leb (z_of_int 0) sf.st_tcount then 1 else 0));
               (* quiescence: let every thread run until nothing moves; the ring is empty and every job counted *)
